@@ -346,6 +346,7 @@ func (fc *FnCtx) doCall(x *ssa.Call) {
 	}
 	s := fc.buildSite(x)
 	specs := fc.siteSpecs(x)
+	fc.checkAllowed(x, s)
 	pre := fc.env.clone()
 	ord := 0
 	for _, cs := range specs {
@@ -1059,4 +1060,26 @@ func (fc *FnCtx) tryTrBool(sc *Scope, e Expr) (t Term, ok bool) {
 		}
 	}()
 	return sc.trBool(e), true
+}
+
+// checkAllowed enforces an "only calls:" clause: a call that may have effects
+// (it is not in the side-effect free library table) must be to a listed callee.
+func (fc *FnCtx) checkAllowed(x ssa.CallInstruction, s *CallSite) {
+	if fc.contract == nil || len(fc.contract.OnlyCalls) == 0 {
+		return
+	}
+	if _, isBuiltin := s.com.Value.(*ssa.Builtin); isBuiltin {
+		return
+	}
+	for _, k := range s.keys {
+		if _, pure := pureLib[k]; pure || isLogging(k) || fc.eng.PureFuncs[k] {
+			return
+		}
+		for _, a := range fc.contract.OnlyCalls {
+			if a == k {
+				return
+			}
+		}
+	}
+	fc.assertUnmatched(fmt.Sprintf("%s:only-calls(%s)", fc.name, s.display), "call to "+s.display+" is not in the function's list of permitted effectful calls")
 }
